@@ -9,6 +9,8 @@ B  rows emitted by TLC with the outcome the specification computes are executed 
    counts probes, recorded detector announcements, httptest peer endpoint that counts and decodes shared registrations):
    quick = every admitted row and all single-condition neighbours (17 920 rows) + 20 000 seeded random rows;
    thorough = 400 000 seeded random rows in addition.
+C  "passed on to peer stations at most once per client registration" under real concurrency: 8 workers ingest one detector
+   registration at the same instant (250 / 1 500 rounds, no gates); probes, shares and announcements must be exactly one.
 """
 import json, os
 import vlib
@@ -71,6 +73,15 @@ def run(ctx):
         ctx.violation("admission:%s:source=%s:covert=%s" % ("+".join(diff), row["source"], row["covert"]),
                       "real ingest disagrees with Admission.tla on %s for row %s: want %s got %s" % (diff, json.dumps(row), m["want"], m["got"]), m)
     ctx.stage("B", rows_executed=summ[0]["rows"], mismatches=summ[0]["mismatches"], **counts)
+    # concurrent deliveries of one detector registration (no gates): one probe, one share, one announcement - the serial outcome
+    bp = os.path.join(ctx.scratch, "burst.ndjson")
+    ctx.go_test(PKG, FILES + ["pkg_station_lib/ingest_pipeline_verif_test.go"], "lib", "^TestVerifDuplicateBurst$",
+                env={"VERIF_OUT": bp, "VERIF_ROUNDS": 1500 if thorough else 250}, timeout=900)
+    for x in ctx.read_results(bp):
+        if x.get("kind") == "prop":
+            ctx.violation("admission:concurrent-duplicates:%s" % x["prop"], "concurrent deliveries of one registration: %s" % x["detail"], x)
+        elif x.get("kind") == "summary":
+            ctx.stage("C", duplicate_burst={k: v for k, v in x.items() if k != "kind"})
     ctx.cov["evaluations"] = summ[0]["rows"]
     ctx.cov["distinct_nontrivial"] = summ[0]["rows"]
     ctx.cov["traces_validated_against_impl"] = 0
